@@ -850,8 +850,14 @@ pub fn run(ctx: &Ctx, phase: Phase, scenarios: usize) {
                         continue;
                     }
                     _ => {
-                        notes.push(format!("scenario {k}: a failure did not reproduce on an identical second run and was discarded as inconclusive: {}", first.msg));
-                        Ok(())
+                        // one failure, one pass: a third identical run decides (two failures of three count)
+                        match attempt(&mut notes) {
+                            Some(Err(third)) => Err(Violation { sig: third.sig, msg: format!("{} (failed in two of three identical runs; first run: {})", third.msg, first.msg) }),
+                            _ => {
+                                notes.push(format!("scenario {k}: a failure did not reproduce in two further identical runs and was discarded as inconclusive: {}", first.msg));
+                                Ok(())
+                            }
+                        }
                     }
                 }
             }
